@@ -442,7 +442,7 @@ fn run_bilinear<T: Fl>(job: &Job, out: &mut JobOut) {
 /// needs is exact there, so the polynomial is reproduced exactly (one unit of slack is granted for
 /// a formulation that truncates once).
 macro_rules! int_phase {
-    ($name:ident, $t:ty) => {
+    ($name:ident, $t:ty, $big:expr) => {
         fn $name(wx: &[i64], out: &mut JobOut) {
             use ndarray::{Array1, Array2};
             use ndarray_interp::interp1d::{Interp1DBuilder, Linear};
@@ -455,14 +455,16 @@ macro_rules! int_phase {
                 }
                 x
             };
+            // (the last constant term is so large that the values are not representable as f64)
             let coef = [-2i64, -1, 0, 1, 3];
+            let consts = [-2i64, -1, 0, 1, 3, $big];
             for off in [0i64, -4] {
                 let x = knots(wx, off);
                 let n = x.len();
                 let xa = Array1::from(x.iter().map(|&v| v as $t).collect::<Vec<$t>>());
                 let qs: Vec<i64> = (x[0] - 3..=x[n - 1] + 3).collect();
                 // Linear
-                for &a in &coef {
+                for &a in &consts {
                     for &b in &coef {
                         let y = Array1::from(x.iter().map(|&v| (a + b * v) as $t).collect::<Vec<$t>>());
                         let ip = match catch(|| Interp1DBuilder::new(y.clone()).x(xa.clone()).strategy(Linear::new().extrapolate(true)).build()) {
@@ -497,7 +499,7 @@ macro_rules! int_phase {
                 let yk = knots(&wy, off + 1);
                 let ya = Array1::from(yk.iter().map(|&v| v as $t).collect::<Vec<$t>>());
                 let c4 = [-1i64, 0, 1, 2];
-                for &a in &c4 {
+                for &a in &[-1i64, 0, 1, 2, $big] {
                     for &b in &c4 {
                         for &c in &c4 {
                             for &d in &c4 {
@@ -541,8 +543,94 @@ macro_rules! int_phase {
         }
     };
 }
-int_phase!(int_i32, i32);
-int_phase!(int_i64, i64);
+int_phase!(int_i32, i32, (1i64 << 30) + 1);
+int_phase!(int_i64, i64, (1i64 << 60) + 1);
+
+/// Unsigned element types: the same, restricted to what unsigned arithmetic can express - data
+/// that is non-negative and rising along both axes, queries inside the range.
+macro_rules! uint_phase {
+    ($name:ident, $t:ty) => {
+        fn $name(wx: &[i64], out: &mut JobOut) {
+            use ndarray::{Array1, Array2};
+            use ndarray_interp::interp1d::{Interp1DBuilder, Linear};
+            use ndarray_interp::interp2d::{Bilinear, Interp2DBuilder};
+            let tn = stringify!($t);
+            let knots = |w: &[i64], off: i64| -> Vec<i64> {
+                let mut x = vec![off];
+                for h in w {
+                    x.push(x[x.len() - 1] + h);
+                }
+                x
+            };
+            for off in [0i64, 3] {
+                let x = knots(wx, off);
+                let n = x.len();
+                let xa = Array1::from(x.iter().map(|&v| v as $t).collect::<Vec<$t>>());
+                for &a in &[0i64, 7, 1000] {
+                    for &b in &[0i64, 1, 3] {
+                        let y = Array1::from(x.iter().map(|&v| (a + b * v) as $t).collect::<Vec<$t>>());
+                        let Ok(Ok(ip)) = catch(|| Interp1DBuilder::new(y.clone()).x(xa.clone()).strategy(Linear::new()).build()) else {
+                            out.violate(format!("{tn}:linear:{x:?}:build").replace(' ', ""), "valid unsigned input not accepted", Json::Null);
+                            continue;
+                        };
+                        out.states += 1;
+                        for q in x[0]..=x[n - 1] {
+                            let want = a + b * q;
+                            let got = catch(|| ip.interp_scalar(q as $t));
+                            out.evals += 1;
+                            out.nontrivial += (b != 0) as u64;
+                            if !matches!(&got, Ok(Ok(v)) if ((*v as i64) - want).abs() <= 1) {
+                                out.violate(format!("{tn}:linear:{x:?}:{a},{b}").replace(' ', ""), format!("Linear<{tn}> over x = {x:?}, y = {a} + {b} x at q = {q}: got {got:?}, the function has {want}"), Json::Null);
+                                break;
+                            }
+                        }
+                    }
+                }
+                let wy: Vec<i64> = wx.iter().rev().cloned().chain([2]).collect();
+                let yk = knots(&wy, off + 1);
+                let ya = Array1::from(yk.iter().map(|&v| v as $t).collect::<Vec<$t>>());
+                for &a in &[0i64, 500] {
+                    for &b in &[0i64, 20, 40] {
+                        for &c in &[0i64, 20, 40] {
+                            for &d in &[-1i64, 0, 1, 2] {
+                                let f = |u: i64, v: i64| a + b * u + c * v + d * u * v;
+                                // expressible in unsigned arithmetic: non-negative, rising in x and in y
+                                let ok = x.iter().all(|&u| yk.iter().all(|&v| f(u, v) >= 0)) && x.windows(2).all(|p| yk.iter().all(|&v| f(p[1], v) >= f(p[0], v))) && yk.windows(2).all(|p| x.iter().all(|&u| f(u, p[1]) >= f(u, p[0])));
+                                if !ok {
+                                    continue;
+                                }
+                                let z = Array2::from_shape_fn((n, yk.len()), |(i, j)| f(x[i], yk[j]) as $t);
+                                let Ok(Ok(ip)) = catch(|| Interp2DBuilder::new(z.clone()).x(xa.clone()).y(ya.clone()).strategy(Bilinear::new()).build()) else {
+                                    out.violate(format!("{tn}:bilinear:{x:?}:build").replace(' ', ""), "valid unsigned grid not accepted", Json::Null);
+                                    continue;
+                                };
+                                out.states += 1;
+                                'q: for qx in x[0]..=x[n - 1] {
+                                    for qy in yk[0]..=yk[yk.len() - 1] {
+                                        let want = f(qx, qy);
+                                        let got = catch(|| ip.interp_scalar(qx as $t, qy as $t));
+                                        out.evals += 1;
+                                        out.nontrivial += (d != 0) as u64;
+                                        if !matches!(&got, Ok(Ok(v)) if ((*v as i64) - want).abs() <= 1) {
+                                            out.violate(
+                                                format!("{tn}:bilinear:{x:?}x{yk:?}:{a},{b},{c},{d}").replace(' ', ""),
+                                                format!("Bilinear<{tn}> over x = {x:?}, y = {yk:?}, z = {a} + {b} x + {c} y + {d} xy (non-negative, rising along both axes) at ({qx}, {qy}): got {got:?}, the function has {want}"),
+                                                Json::Null,
+                                            );
+                                            break 'q;
+                                        }
+                                    }
+                                }
+                            }
+                        }
+                    }
+                }
+            }
+        }
+    };
+}
+uint_phase!(int_u32, u32);
+uint_phase!(int_u64, u64);
 
 fn body(ctx: &Ctx) -> (Summary, Meta) {
     let quick = ctx.quick();
@@ -601,10 +689,12 @@ fn body(ctx: &Ctx) -> (Summary, Meta) {
         let mut out = JobOut::default();
         int_i32(w, &mut out);
         int_i64(w, &mut out);
+        int_u32(w, &mut out);
+        int_u64(w, &mut out);
         out
     }));
     let meta = Meta {
-        rule: "all 256 polynomials with coefficients in {-1,0,1/2,2} of degree <= 3; per axis ONE Individual build whose lanes are every (polynomial, left condition, right condition) with conditions the polynomial satisfies (NotAKnot for n>=4, FirstDeriv(p'), SecondDeriv(p''), Natural iff p''=0, Clamped iff p'=0; n=3: one NotAKnot end + a derivative end, both NotAKnot for degree<=2) - so every lane has its own boundary pair and values - plus the whole-data-set NotAKnot default, row-level NotAKnot and Natural-for-lines builds; affine functions for Linear; all 256 forms a+bx+cy+dxy for Bilinear; queries: in-range grid (4 per interval) and 4 extrapolated ones. Oracle: exact polynomial value. Non-trivial = degree >= 2 (spline), degree 1 (Linear), d != 0 (Bilinear). Phase integer-element-types (i32, i64): every interval word over {1,2,3} (1..3 (4) intervals, 2 offsets), Linear on a + b x (25 coefficient pairs) and Bilinear on all 256 forms with coefficients in {-1,0,1,2}, extrapolation on, every integer query from 3 (2) below to 3 (2) above the range; all divisions are exact there, slack 1 unit.".into(),
+        rule: "all 256 polynomials with coefficients in {-1,0,1/2,2} of degree <= 3; per axis ONE Individual build whose lanes are every (polynomial, left condition, right condition) with conditions the polynomial satisfies (NotAKnot for n>=4, FirstDeriv(p'), SecondDeriv(p''), Natural iff p''=0, Clamped iff p'=0; n=3: one NotAKnot end + a derivative end, both NotAKnot for degree<=2) - so every lane has its own boundary pair and values - plus the whole-data-set NotAKnot default, row-level NotAKnot and Natural-for-lines builds; affine functions for Linear; all 256 forms a+bx+cy+dxy for Bilinear; queries: in-range grid (4 per interval) and 4 extrapolated ones. Oracle: exact polynomial value. Non-trivial = degree >= 2 (spline), degree 1 (Linear), d != 0 (Bilinear). Phase integer-element-types (i32, i64 incl. constant terms 2^30+1 / 2^60+1; u32, u64 on non-negative data rising along both axes, in-range queries): every interval word over {1,2,3} (1..3 (4) intervals, 2 offsets), Linear on a + b x (25 coefficient pairs) and Bilinear on all 256 forms with coefficients in {-1,0,1,2}, extrapolation on, every integer query from 3 (2) below to 3 (2) above the range; all divisions are exact there, slack 1 unit.".into(),
         bounds: format!("{njobs} (type, axis/grid, strategy) jobs; tier {}", ctx.tier.name()),
         assumptions: vec!["tolerance K eps scale inside, 16 K eps scale |t|^3 outside, with scale = max(|y_i|, |h_i p'(x_i)|, |p(q)|)".into()],
         extra: vec![],
